@@ -289,6 +289,9 @@ def run_core_case(ctx, case, area, classify, coverage, compare_kw=None, judge_fi
         ctx.skip("rejected:E" + "+".join(codes))
         return
     ctx.count("programs_accepted")
+    if ctx.tier == "thorough" and len(ctx.recorded) < 6:
+        ctx.record({"op": "run", "src": src, "ext": {"event": CORE_SCHEMA}, "probe": True,
+                    "events": [{"e": enc(events[0])}]})
     for event, run in zip(events, resp["runs"]):
         if extra_check is not None:
             for sig, detail in extra_check(resp, run, stmts, event):
